@@ -16,7 +16,7 @@ Outcomes (`Out`):
 * `invalid` — the op mentions a handle that no earlier call returned (impossible through the Rust API:
   handle types have private fields). State unchanged.
 
-Not modelled: kernel lib mappings, `remove_lib_mapping`, sample columns other than `stack` (C04),
+Not modelled: kernel lib mappings, sample columns other than `stack` (C04),
 timestamps of samples and markers, marker schema display fields, colours.
 Core Lean only.
 -/
@@ -121,6 +121,8 @@ inductive Op
   | addLib (name : Str)
   | libSyms (lib : Nat) (syms : List Sym)
   | addMapping (p lib start end_ rel : Nat)
+  | removeMapping (p start : Nat)
+  | clearMappings (p : Nat)
   | string (s : Str)
   | category (name : Str) (color : Nat)
   | subcategory (c : Nat) (name : Str)
@@ -564,6 +566,17 @@ def step (p : P) : Op → P × Out
         | none => (p, .panic)
         | some maps => ({ p with processes := p.processes.set pi { pr with maps := maps } }, .ok)
       else (p, .invalid)
+  | .removeMapping pi start =>
+    -- profile.rs:433-435, process.rs:110-112, lib_mappings.rs:96-100: `BTreeMap::remove(&start_avma)`
+    match p.processes[pi]? with
+    | none => (p, .invalid)
+    | some pr =>
+      ({ p with processes := p.processes.set pi { pr with maps := pr.maps.filter (fun m => m.start ≠ start) } }, .ok)
+  | .clearMappings pi =>
+    -- profile.rs:438-440, process.rs:114-116, lib_mappings.rs:103-105
+    match p.processes[pi]? with
+    | none => (p, .invalid)
+    | some pr => ({ p with processes := p.processes.set pi { pr with maps := [] } }, .ok)
   | .string s =>
     let r := p.gstrings.indexFor s
     ({ p with gstrings := r.1 }, .h [r.2])
